@@ -549,6 +549,9 @@ func TestC11(t *testing.T) {
 		if i%40 == 22 {
 			c11manyFailures(rep, seed, i/40)
 		}
+		if i%40 == 33 {
+			c11steady(rep, seed, i/40)
+		}
 		if i%20 == 19 {
 			c11clients(rep, seed, i/20)
 		}
@@ -787,6 +790,130 @@ func c11manyFailures(rep *vh.Report, seed uint64, idx int) {
 	}
 	<-n.cons.done
 	rep.Distinct("manyfail", idx)
+}
+
+// c11steady: a steady flow on one TCP link (an item every few ms, never a pause of a tenth of the write timeout) that lasts
+// several write timeouts (WriteTimeout 150 ms): the peer reads everything at once, the channel is healthy throughout, so
+// every item arrives, in order.
+func c11steady(rep *vh.Report, seed uint64, idx int) {
+	if aborted() {
+		return
+	}
+	r := vh.Sub(seed, fmt.Sprintf("c11-steady-%d", idx))
+	hookReset(r.U64(), false, false)
+	WT := 150 * time.Millisecond
+	asClient := idx%2 == 1
+	var node *gomavlib.Node
+	var conn net.Conn
+	if asClient {
+		ln, err := net.Listen("tcp4", "127.0.0.1:0")
+		if err != nil {
+			return
+		}
+		defer ln.Close()
+		node = &gomavlib.Node{Endpoints: []gomavlib.EndpointConf{gomavlib.EndpointTCPClient{Address: ln.Addr().String()}}, Dialect: testDialect, OutVersion: gomavlib.V2, OutSystemID: 43,
+			HeartbeatDisable: true, WriteTimeout: WT, IdleTimeout: 10 * time.Second}
+		if err := node.Initialize(); err != nil {
+			rep.Inconclusive("C11 steady: " + err.Error())
+			return
+		}
+		c, err := ln.Accept()
+		if err != nil {
+			safeClose(rep, node)
+			return
+		}
+		conn = c
+	} else {
+		port := freeTCPPort()
+		node = &gomavlib.Node{Endpoints: []gomavlib.EndpointConf{gomavlib.EndpointTCPServer{Address: fmt.Sprintf("127.0.0.1:%d", port)}}, Dialect: testDialect, OutVersion: gomavlib.V2, OutSystemID: 43,
+			HeartbeatDisable: true, WriteTimeout: WT, IdleTimeout: 10 * time.Second}
+		if err := node.Initialize(); err != nil {
+			rep.Inconclusive("C11 steady: " + err.Error())
+			return
+		}
+		c, err := net.Dial("tcp4", fmt.Sprintf("127.0.0.1:%d", port))
+		if err != nil {
+			safeClose(rep, node)
+			return
+		}
+		conn = c
+		_, _ = conn.Write(uidFrame(1, 0, 9, false, nil, 0))
+	}
+	defer conn.Close()
+	cons := newConsumer(rep, "C11", "tcp", node)
+	cons.start()
+	if !cons.waitOpen(1, 3*time.Second) {
+		rep.Inconclusive("C11 steady: the channel did not open")
+		safeClose(rep, node)
+		return
+	}
+	var mu sync.Mutex
+	var got []uint64
+	rdone := make(chan struct{})
+	go func() {
+		defer close(rdone)
+		var buf []byte
+		tmp := make([]byte, 4096)
+		for {
+			n, err := conn.Read(tmp)
+			buf = append(buf, tmp[:n]...)
+			for len(buf) > 0 {
+				f, ln, st := ref.ParseAt(buf, 0)
+				if st != ref.ParseOK {
+					break
+				}
+				if uid, ok := uidOfWire(f); ok {
+					mu.Lock()
+					got = append(got, uid)
+					mu.Unlock()
+				}
+				buf = buf[ln:]
+			}
+			if err != nil {
+				return
+			}
+		}
+	}()
+	const fam = 0xCE
+	var want []uint64
+	start := time.Now()
+	var maxGap time.Duration
+	last := start
+	for i := 0; time.Since(start) < 5*WT; i++ {
+		uid := uint64(fam)<<56 | uint64(i+1)
+		want = append(want, uid)
+		_ = node.WriteMessageAll(&MessageVfUid{Uid: uid, Kind: 1})
+		time.Sleep(WT / 50)
+		now := time.Now()
+		if g := now.Sub(last); g > maxGap {
+			maxGap = g
+		}
+		last = now
+	}
+	nGot := func() int64 { mu.Lock(); defer mu.Unlock(); return int64(len(got)) }
+	waitFor(func() bool { return nGot() >= int64(len(want)) }, nGot, 600*time.Millisecond)
+	closed := false
+	for _, ci := range cons.allChannels() {
+		if cons.snapshot(ci).State == 2 {
+			closed = true
+		}
+	}
+	mu.Lock()
+	g := append([]uint64(nil), got...)
+	mu.Unlock()
+	rep.Eval(1)
+	rep.Count("scenarios_steady_flow", 1)
+	rep.Distinct("steady", idx)
+	if !closed && !eqU64(g, want) {
+		rep.Violation("what="+classifySeq(g, want)+" ep=tcp", fmt.Sprintf("a steady flow of %d items over %v on one healthy TCP link (write timeout %v, largest pause between writes %v, peer reading at once): %d arrived", len(want), 5*WT, WT, maxGap, len(g)),
+			map[string]interface{}{"as_client": asClient, "first_got": head(g), "first_want": head(want)})
+	}
+	if !safeClose(rep, node) {
+		return
+	}
+	<-cons.done
+	conn.Close()
+	<-rdone
 }
 
 // c11stale: a one-channel-at-a-time endpoint whose channel closed and re-opened. The old channel object is a closed
@@ -1163,8 +1290,13 @@ func c11tcp(rep *vh.Report, seed uint64, idx int) {
 					if !recv {
 						continue
 					}
-					for sent[g][ti]-atomic.LoadInt32(&peers[ti].seen[g]) >= int32(W) {
+					for spins := 0; sent[g][ti]-atomic.LoadInt32(&peers[ti].seen[g]) >= int32(W); spins++ {
 						time.Sleep(50 * time.Microsecond)
+						if spins > 60000 || (spins > 3000 && atomic.LoadInt32(&c11flowStuckN) > 0) {
+							// items were lost on a healthy connection: stop writing, the checks below name them
+							atomic.AddInt32(&c11flowStuckN, 1)
+							return
+						}
 					}
 					sent[g][ti]++
 				}
